@@ -409,6 +409,7 @@ func (w *World) Apply(op Op) (v *Violation) {
 	case "unpin":
 		if exs := w.Pins[op.N]; len(exs) > 0 {
 			exs[len(exs)-1].Close()
+			exs[len(exs)-1].Close() // safe to call multiple times by contract
 			w.Pins[op.N] = exs[:len(exs)-1]
 			if len(w.Pins[op.N]) == 0 {
 				delete(w.Pins, op.N)
